@@ -150,6 +150,14 @@ func tpScenario(name string, producers [][]tpEmit, taskYields bool) *vsched.Scen
 	return &vsched.Scenario{Name: name, Body: body, Check: check, Outcome: outcome, MaxSteps: 4000, HorizonNs: int64(5 * time.Second)}
 }
 
+func tpRepeat(key, n int) []tpEmit {
+	out := make([]tpEmit, n)
+	for i := range out {
+		out[i].key = key
+	}
+	return out
+}
+
 func firstLine(s string) string {
 	if i := strings.IndexByte(s, '\n'); i >= 0 {
 		return s[:i]
@@ -165,5 +173,9 @@ func VerifTaskPoolScenarios() []*vsched.Scenario {
 		tpScenario("tp-idle-vs-2emit", [][]tpEmit{{{key: 1}}, {{key: 1, sleep: age}}}, false),
 		tpScenario("tp-overflow", [][]tpEmit{{{key: 1}, {key: 1}, {key: 1}, {key: 1}}}, false),
 		tpScenario("tp-2keys-3prod", [][]tpEmit{{{key: 1}, {key: 2}}, {{key: 2}}}, false),
+		// 12 tasks of one flow against a channel of 2: the overflow list grows to 10 (capacity 16) and is drained from the
+		// front (each pop also takes one off the capacity) until 0 < len < cap/4 holds and the shrink branch copies the
+		// remainder into a fresh list — which must keep every queued task.
+		tpScenario("tp-deep-overflow", [][]tpEmit{tpRepeat(1, 12)}, false),
 	}
 }
